@@ -65,6 +65,21 @@ func addOrderProbes(n *model.Node) {
 	})
 }
 
+// addSentinelTests: sibling fields report one and the same issue value (kept by the user next to the schema, like a
+// sentinel error) from complex tests; the nodes do not catch, the issue carries its message.
+func addSentinelTests(rt *rapid.T, root *model.Node) {
+	root.Walk(func(x *model.Node) {
+		n := 0
+		for _, f := range x.Fields {
+			if model.IsPrimitive(f.Node.Kind) && f.Node.Catch == nil && n < 4 {
+				pred := rapid.SampledFrom([]string{"fail", "fail", "hashEven"}).Draw(rt, "spred")
+				f.Node.Tests = append(f.Node.Tests, model.TestSpec{Name: "func", Str: pred, Complex: "sentinel", Opts: model.Opts{Code: "sent"}})
+				n++
+			}
+		}
+	})
+}
+
 func keyPaths(n *model.Node, prefix string, out map[int]string) {
 	out[n.ID] = prefix
 	if n.Elem != nil {
@@ -195,6 +210,9 @@ func TestC09(t *testing.T) {
 				base.Exec.Formatter = model.TemplateFormatter // messages built from multi-placeholder templates and the tests' parameter maps
 			}
 			addOrderProbes(base.Root)
+			if rapid.IntRange(0, 2).Draw(rt, "sentinel") == 0 {
+				addSentinelTests(rt, base.Root)
+			}
 			cc := c09Case{Variants: []model.Case{base}}
 			for k := 1; k < K; k++ {
 				v := cloneCase(base)
